@@ -208,7 +208,11 @@ def run(facts, tier, ctx):
             _fd = re.escape(_lf.feeder_body(facts).id)
         except FactError:
             _fd = r"<no feeder>"
-        ectx.noinline = [r"^coding::encode_fixed", _fd, r"Context::new$", r"ParContext::", r"^par::encode_with"]
+        # the worker-count function, by role: the par function that asks for the available parallelism
+        _wc = [b.id for b in facts.body_list if b.kind == "Fn" and b.id.startswith("par::") and any(
+            (tt.get("fn") or {}).get("def", "").endswith("available_parallelism") for _bi, tt in b.calls())]
+        ectx.noinline = [r"^coding::encode_fixed", _fd, r"Context::new$", r"ParContext::", r"^par::encode_with"] \
+            + [re.escape(x) + "$" for x in _wc]
         it = E.Interp(ectx, e)
         try:
             it.run()
@@ -234,7 +238,7 @@ def run(facts, tier, ctx):
                 # established in every iteration of a loop over the frame-buffer pool, whose size is the worker count times a
                 # constant; the worker count is non-zero (C06 WORKERS/non-zero)
                 d = f[1]
-                if not (d[0] == "range" and E.is_c(E.strip_casts(d[2]), 0) and "determine_worker_count" in E.canon(d[3])):
+                if not (d[0] == "range" and E.is_c(E.strip_casts(d[2]), 0) and any(x in E.canon(d[3]) for x in _wc)):
                     continue
                 f = ("cond", f[2], 1)
             if f[0] != "cond" or f[2] != 1:
